@@ -115,14 +115,14 @@ func shuffle(r *Rng, s []string) {
 }
 
 // drawForm: everything about the SDP text except the parameter set itself, from the form seed
-func drawForm(kind string, seed uint64, ps []byte) sdpForm {
+func drawForm(kind string, seed uint64, ps, vps0, pps0 []byte) sdpForm {
 	r := NewRng(seed)
 	f := sdpForm{kind: kind, pt: 96 + r.Intn(32), startCode: []int{0, 0, 3, 4}[r.Intn(4)], sep: []string{";", "; "}[r.Intn(2)]}
 	b64 := func(b []byte) string { return base64.StdEncoding.EncodeToString(append(sc(f.startCode), b...)) }
 	switch kind {
 	case "h264":
 		f.codecName = []string{"H264", "h264"}[r.Intn(2)]
-		sets := b64(ps) + "," + b64(sdpPps264)
+		sets := b64(ps) + "," + b64(pps0)
 		if r.Chance(15) { // RFC 6184 8.1: any number of parameter sets
 			f.moreSets = true
 			sets += "," + b64([]byte{0x68, 0xee, 0x3c, 0x80})
@@ -138,7 +138,7 @@ func drawForm(kind string, seed uint64, ps []byte) sdpForm {
 		shuffle(r, f.params)
 	case "h265":
 		f.codecName = []string{"H265", "h265", "HEVC", "hevc"}[r.Intn(4)]
-		f.params = []string{"sprop-vps=" + b64(goodVps265), "sprop-sps=" + b64(ps), "sprop-pps=" + b64(goodPps265)}
+		f.params = []string{"sprop-vps=" + b64(vps0), "sprop-sps=" + b64(ps), "sprop-pps=" + b64(pps0)}
 		shuffle(r, f.params)
 		if r.Chance(40) { // RFC 7798 7.1: parameters that do not carry parameter sets, before and/or after
 			f.extra = true
@@ -308,7 +308,12 @@ func evalSdp(c *Ctx, k caseT, out string) {
 	}
 	m := KV(out)
 	_, rejected := m["err"]
-	form := drawForm(kind, seed, ps)
+	// the other sets of the SDP are those of the line (`sd=<vps|->.<pps>`)
+	var vps0, pps0 []byte
+	if sd := strings.Split(kv["sd"], "."); len(sd) == 2 {
+		vps0, pps0 = Unhx(sd[0]), Unhx(sd[1])
+	}
+	form := drawForm(kind, seed, ps, vps0, pps0)
 	own := stripStartCode(append(sc(form.startCode), ps...)) // what one removal of the start code leaves
 	if kind != "aac" && (len(stripStartCode(own)) != len(own) || (len(stripStartCode(ps)) != len(ps) && form.startCode != 0)) {
 		// a set that still starts with a start code after the removal done by ParseMetadata is decoded differently through
@@ -424,19 +429,32 @@ func sdpCaseOf(c *Ctx, k caseT, kind string, ps []byte, spec string, add func(ca
 	if spec == "" || !k.wf {
 		spec = "-"
 	}
-	add(caseT{line: sdpLine(kind, ps, c.Rng.U64()%1000000, spec), kind: "sdp", wf: k.wf && spec != "-", class: k.class})
+	vps0, pps0 := goodVps265, goodPps265
+	if kind == "h264" {
+		vps0, pps0 = nil, sdpPps264
+	}
+	add(caseT{line: sdpLine(kind, ps, vps0, pps0, c.Rng.U64()%1000000, spec), kind: "sdp", wf: k.wf && spec != "-", class: k.class})
+}
+
+// sdpCaseOfVps: the VPS of a decoder case as sprop-vps next to the known-good SPS and PPS — hevc.MetadataIsReady only needs
+// a non-empty VPS, so whatever the bytes are the stream reports the size of the good SPS
+func sdpCaseOfVps(c *Ctx, k caseT, vps []byte, add func(caseT)) {
+	if len(stripStartCode(vps)) == 0 || len(stripStartCode(vps)) != len(vps) || c.Rng.Intn(4) != 0 {
+		return
+	}
+	add(caseT{line: sdpLine("h265", goodSps265, vps, goodPps265, c.Rng.U64()%1000000, fmt.Sprintf("%d,%d,*,*", goodW, goodH)), kind: "sdp", wf: true, class: "sdp-arbitrary-vps"})
 }
 
 // sdpLine: the op line of an SDP case; the other sets of the SDP, the start-code prefix and the in-band sets are spelled
-// out for the driver (they are determined by the kind and the form seed)
-func sdpLine(kind string, ps []byte, seed uint64, spec string) string {
+// out (the text of the SDP is determined by the line)
+func sdpLine(kind string, ps, vps0, pps0 []byte, seed uint64, spec string) string {
 	line := fmt.Sprintf("c15 sdp %s %s v=%d spec=%s", kind, Hx(ps), seed, spec)
-	form := drawForm(kind, seed, ps)
+	form := drawForm(kind, seed, ps, vps0, pps0)
 	switch kind {
 	case "h264":
-		line += fmt.Sprintf(" sc=%d sd=-.%s ib=-.%s.%s", form.startCode, Hx(sdpPps264), Hx(goodSps), Hx(goodPps))
+		line += fmt.Sprintf(" sc=%d sd=-.%s ib=-.%s.%s", form.startCode, Hx(pps0), Hx(goodSps), Hx(goodPps))
 	case "h265":
-		line += fmt.Sprintf(" sc=%d sd=%s.%s ib=%s.%s.%s", form.startCode, Hx(goodVps265), Hx(goodPps265), Hx(goodVps265), Hx(goodSps265), Hx(goodPps265))
+		line += fmt.Sprintf(" sc=%d sd=%s.%s ib=%s.%s.%s", form.startCode, Hx(vps0), Hx(pps0), Hx(goodVps265), Hx(goodSps265), Hx(goodPps265))
 	}
 	return line
 }
